@@ -256,6 +256,9 @@ func makeValue(rng *rand.Rand, cs *Case, r *recState) {
 				kids = append(kids, fmt.Sprintf(`{"id":"%s#%d","op":"%s","us":%d}`, r.ID, k, op, us))
 			}
 			items = `,"items":[` + strings.Join(kids, ",") + `]`
+			if cs.MaxEventSize > 0 && len(items)+len(pad)+len(r.ID)+64 > cs.MaxEventSize {
+				items, r.Kids = "", 0 // would be refused as oversize: keep it a plain record
+			}
 		}
 		r.Value = []byte(fmt.Sprintf(`{"id":"%s","op":"%s",%s"us":%d,"pad":"%s"%s}`, r.ID, r.Op, og, r.SleepUs, pad, items))
 	}
